@@ -280,6 +280,29 @@ def gen_scenario(rng):
             evs.append(["wait", rng.choice(BOUNDARY_WAITS + [2000000, 4000000, 250000000])])
     return evs
 
+def gen_giveup(rng):
+    """a CON of ours (request or separate response) is never acknowledged: retransmissions, give-up, everything to that peer fails —
+    with a multicast request pending, a backlogged second CON and a running handler for the same peer in random combination"""
+    p = rng.choice([0, 1]); evs = []; slow = 0
+    pre = [["request", 100, None, rng.random() < 0.3]] if rng.random() < 0.6 else []
+    if rng.random() < 0.5: evs += pre; pre = []
+    if rng.random() < 0.4:
+        evs.append(["recv", p, 1, W(rng.choice([CON, NON]), 1, 50, [7], 0, rng.choice(NR_VALUES))]); slow += 1     # a handler that will be cancelled
+    if rng.random() < 0.7:
+        evs.append(["request", p, rng.choice([None, 0]), rng.random() < 0.3])
+    else:                                                                                                          # our CON is a separate response
+        evs += [["recv", p, 1, W(CON, 1, 60, [8])], ["wait", 100000], ["fire"], ["fire"], ["respond", slow, 69, None, [1]]]
+    if rng.random() < 0.5: evs.append(["request", p, rng.choice([None, 0, 1]), False])                              # backlogged behind the first
+    evs += pre
+    fires = rng.choice([4, 5, 5, 6, 7])
+    for k in range(fires):
+        evs.append(["fire"])
+        if rng.random() < 0.15: evs.append(["recv", p, 1, W(rng.choice([ACK, RST]), 0, rng.choice([0, 1, 2]), [])])
+        if rng.random() < 0.1: evs.append(["wait", rng.choice([1, 1000000])])
+    evs.append(["request", p, None, False])
+    evs.append(["respond", 0, 69, None, [2]])
+    return evs
+
 def table_cells():
     """the full finite table, deterministic: type x code class x token known x received on multicast x handler/No-Response"""
     for t in range(4):
@@ -322,7 +345,8 @@ class C10(fw.Property):
                   "service; recording transport. Not modelled: shutdown branches, transport errors, server-side observe, blockwise, message-id wrap-around.")
     rule = ("streams: table = one cell of type x code class x token known x unicast/multicast x handler/No-Response with random context and timing; "
             "cells = the full table enumerated; piggy = request to a slow handler answered around EMPTY_ACK_DELAY (99999/100000/100001 us, timer before/after); "
-            "scenario = adversarial interleavings over small mid/token spaces (duplicates, token reuse, overriding requests, backlog, give-up). "
+            "scenario = adversarial interleavings over small mid/token spaces (duplicates, token reuse, overriding requests, backlog, give-up); "
+            "giveup = an unacknowledged CON of ours retransmitted until give-up with a multicast request pending / a backlogged CON / a running handler. "
             "Non-trivial = at least one datagram was sent by the stack; distinct by full script.")
     trusted_base = ["hand-written Model/C10.v (validated by all four correspondence streams on every run)",
                     "harness: virtual-time loop (ideal timers), recording message interface, random pinned (mid0 = token0 = 0, ACK_TIMEOUT factor 1.0)"]
@@ -340,7 +364,8 @@ class C10(fw.Property):
             m = k % 10
             if m < 4: yield "table", gen_table(rng)
             elif m < 7: yield "piggy", gen_piggy(rng)
-            else: yield "scenario", gen_scenario(rng)
+            elif m < 9: yield "scenario", gen_scenario(rng)
+            else: yield "giveup", gen_giveup(rng)
 
     def setup(self):
         warnings.simplefilter("ignore")
@@ -476,6 +501,9 @@ def oracle(evs, res):
             acked_before = [a for a in acks if a[0] < j or (a[0] == j and a[2][3] == 0 and res[j]["send"].index(a[2]) < (res[j]["send"].index(sent[0]) if sent else -1))]
             if _suppressed(nr_eff, code):
                 lost = R["con"] and not acked_before and (o3 is None or o3 > j) and j < end and not any(a[0] == j and a[2][3] == 0 for a in acks)
+                ignored = ("C10:no-response-ignored-on-error-response" if errpath else "C10:no-response-ignored",
+                           where + " carried No-Response %r but %r was sent" % (nr_eff, sent))
+                if any(x[2] == ACK for x in sent): return ignored      # the suppressed response itself travelled in the ACK
                 if lost and R["local"] == 2:
                     return ("C10:no-response-lost-ack:received-on-multicast", where + " (received on a multicast address): response suppressed, but no empty ACK sent: %r" % (res[j]["send"],))
                 if sent:
